@@ -155,10 +155,14 @@ def run_probes(desc):
     counters, violations, sigs = {"partial_pair_checked": 0}, [], set()
     for _ in range(60):
         c07.run_partial_pair(rng, counters, violations, sigs, two_machines=True)
+    for _ in range(60):
+        # two plug-in listeners with equal class/method names behind the same decorator stack, one per machine
+        c07.run_wrapped_pair(rng, counters, violations, sigs, two_machines=True)
     for v in violations:
         v["rule"] = "C16.binding-of-other-machine"
-    return {"evaluations": counters["partial_pair_checked"], "signatures": sorted(sigs), "samples": [],
-            "counters": {"two_machine_partial_probes": counters["partial_pair_checked"]}, "violations": violations[:2]}
+    return {"evaluations": counters["partial_pair_checked"] + counters.get("wrapped_pair_checked", 0), "signatures": sorted(sigs), "samples": [],
+            "counters": {"two_machine_partial_probes": counters["partial_pair_checked"],
+                         "two_machine_wrapped_probes": counters.get("wrapped_pair_checked", 0)}, "violations": violations[:2]}
 
 
 def run_shard(desc):
